@@ -374,10 +374,38 @@ impl Prop for C18 {
     }
     fn enumerated_desc(&self, tier: Tier) -> Option<String> {
         Some(format!(
-            "body header: all 2^8 raws x (get, validator, set with all 256 values); control and PCI headers: all 2^16 raws x get and set of every field with {} values; SMBus/transport/routing/IANA: {} structured 32-bit patterns x get and set of every field x 18 (8 for IANA) values; transport validator: all 256 first bytes x all 256 version values; transport constructor: all 256 versions",
+            "{}body header: all 2^8 raws x (get, validator, set with all 256 values); control and PCI headers: all 2^16 raws x get and set of every field with {} values; SMBus/transport/routing/IANA: {} structured 32-bit patterns x get and set of every field x 18 (8 for IANA) values; transport validator: all 256 first bytes x all 256 version values; transport constructor: all 256 versions",
+            if tier == Tier::Thorough { "every getter of the SMBus, transport, routing-entry and IANA views on all 2^32 raw values (exhaustive sweep); " } else { "" },
             if tier == Tier::Thorough { "all 256 (control) / 8 (PCI)" } else { "18 (control) / 8 (PCI)" },
             patterns32().len()
         ))
+    }
+    fn bulk(&self, tier: Tier, shard: usize, nshards: usize) -> Option<(u64, u64, Option<Case>)> {
+        if tier != Tier::Thorough {
+            return None;
+        }
+        // every one of the 2^32 raw values of the four 32-bit views, all getters
+        let span = (1u64 << 32) / nshards as u64;
+        let lo = span * shard as u64;
+        let hi = if shard + 1 == nshards { 1u64 << 32 } else { lo + span };
+        let mut n = 0u64;
+        let mut nt = 0u64;
+        for hdr in [0u8, 1, 4, 6] {
+            let fs = fields(hdr);
+            for raw in lo..hi {
+                let b = (raw as u32).to_be_bytes();
+                n += 1;
+                if raw != 0 {
+                    nt += 1;
+                }
+                for (i, fd) in fs.iter().enumerate() {
+                    if sut_get(hdr, i, &b) != ref_get(&b, fd) {
+                        return Some((n, nt, Some(Case::Get { hdr, raw: raw as u32 })));
+                    }
+                }
+            }
+        }
+        Some((n, nt, None))
     }
     fn run(&self, case: &Case) -> CaseResult {
         let mut r = CaseResult::default();
